@@ -98,7 +98,7 @@ Proof. destruct n; intros c H; simpl; [reflexivity|]. rewrite H. reflexivity. Qe
 
 Lemma step_inv_rseq0 fixed fixk s e : inv_rseq s -> inv_rseq (step_g fixed fixk s e).
 Proof.
-  intros H. destruct e as [|t cls| |v]; cbn [step_g].
+  intros H. destruct e as [|t cls| |v]; [cbn [step_g] | cbn [step_g] | cbn [step_g] | ].
   - destruct (closed (cn s)) eqn:Ec; [exact H|]. exact H.
   - unfold recv_g.
     destruct (closed (cn s)) eqn:Ec; [exact H|].
@@ -364,7 +364,7 @@ Proof. intros n c H. rewrite run_tasks_closed_id; assumption. Qed.
 
 Lemma inv_clear_step fixed fixk s e : inv_clear s -> inv_clear (step_g fixed fixk s e).
 Proof.
-  intros I. destruct e as [|t cls| |v]; cbn [step_g].
+  intros I. destruct e as [|t cls| |v]; [cbn [step_g] | cbn [step_g] | cbn [step_g] | ].
   - destruct (closed (cn s)) eqn:Ec; [exact I|].
     destruct I as [Isid Ipre Istr]. split; cbn.
     + exact Isid.
@@ -491,7 +491,7 @@ Qed.
 Lemma step_unsolicited_fixed fixk s e :
   unsolicited (cn s) = false -> unsolicited (cn (step_g true fixk s e)) = false.
 Proof.
-  intros H. destruct e as [|t cls| |v]; cbn [step_g].
+  intros H. destruct e as [|t cls| |v]; [cbn [step_g] | cbn [step_g] | cbn [step_g] | ].
   - destruct (closed (cn s)); [exact H|]. cbn. exact H.
   - unfold recv_g. destruct (closed (cn s)); [exact H|].
     pose proof (dispatch_unsolicited_fixed fixk (cn s) (recv_seq s) t cls H) as H1.
@@ -529,10 +529,11 @@ Definition post_inv (u : Z) (s : st) : Prop := closed (cn s) = true \/ post_ok u
 
 Lemma step_post_inv fixed fixk u s e : post_inv u s -> post_inv u (step_g fixed fixk s e).
 Proof.
-  intros [Hc|Hp]; destruct e as [|t cls| |v]; cbn [step_g].
+  intros [Hc|Hp]; destruct e as [|t cls| |v]; [cbn [step_g] | cbn [step_g] | cbn [step_g] | | cbn [step_g] | cbn [step_g] | cbn [step_g] | ].
   - rewrite Hc. left. exact Hc.
   - unfold recv_g. rewrite Hc. left. exact Hc.
   - left. cbn [with_conn cn]. rewrite run_tasks_closed_id; exact Hc.
+  - rewrite step_release. rewrite Hc. left. exact Hc.
   - destruct (closed (cn s)) eqn:Ec; [left; exact Ec|]. right. destruct Hp as (H1 & H2 & H3 & H4 & H5).
     unfold post_ok. cbn. auto.
   - unfold recv_g. destruct (closed (cn s)) eqn:Ec; [left; exact Ec|].
@@ -543,7 +544,6 @@ Proof.
         destruct D as (H1 & H2 & H3 & H4 & H5); unfold post_ok; cbn; auto.
   - right. cbn [with_conn cn]. destruct Hp as (H1 & H2 & H3 & H4 & H5). rewrite run_tasks_nopending by exact H3.
     unfold post_ok. auto.
-  - rewrite step_release. rewrite Hc. left. exact Hc.
   - rewrite step_release. destruct Hp as (H1 & H2 & H3 & H4 & H5). rewrite H4. cbn [Z.eqb].
     rewrite orb_true_r. right. unfold post_ok. auto.
 Qed.
@@ -630,3 +630,39 @@ Lemma kbd_failed_then_right_answer fixed fixk :
   let s' := run_g fixed fixk s [EvRecv 61 0; EvSettle] in
   closed (cn s') = true /\ auth_complete (cn s') = false /\ authed (cn s') = 0.
 Proof. destruct fixed, fixk; vm_compute; repeat split; reflexivity. Qed.
+
+(* ---- the skip transitions of auth.py (try_next_auth(next_method=True)) ---------------------------------------- *)
+(* every path through try_next_auth lowers the request-outstanding flag - also the skips that happen AFTER the
+   skipped method had sent its request *)
+Lemma try_next_auth_clears c nm : req_issued (try_next_auth c nm) = false /\ waiting (try_next_auth c nm) = false.
+Proof. unfold try_next_auth, abort. cbv zeta. crush_ifs; cbn; auto. Qed.
+
+Lemma skip_transitions_clear c :
+  req_issued (run_task c (TClientKbdResp 1)) = false /\      (* keyboard-interactive prompt cancelled *)
+  req_issued (run_task c TChangePw) = false /\               (* password change not supported *)
+  req_issued (release_conn c 0) = false.                     (* credential callback has nothing to offer *)
+Proof.
+  unfold run_task, release_conn. cbn [Z.eqb].
+  repeat split; apply try_next_auth_clears.
+Qed.
+
+(* with the flag down a USERAUTH_SUCCESS ends the connection, in EVERY state *)
+Lemma success_needs_flag fixk c seq cls :
+  req_issued c = false -> closed (dispatch_g true fixk c seq 52 cls) = true.
+Proof.
+  intros Hr. unfold dispatch_g. cbn [Z.leb Z.compare andb Z.ltb Z.eqb]. rewrite !andb_false_r.
+  destruct ((49 <? 52) && negb (recv_enc c)) eqn:E1; [reflexivity|].
+  cbn. unfold on_connmsg_g. cbn. unfold on_userauth_success_g. rewrite Hr. cbn. rewrite !andb_false_r. reflexivity.
+Qed.
+
+(* the gated scripted session: keyboard-interactive request sent, challenge arrives, the user cancels, the password
+   callback is pending - a USERAUTH_SUCCESS in that window ends the connection *)
+Definition between_methods : list event :=
+  [EvVersion; EvRecv 20 1; EvSettle; EvRecv 31 0; EvSettle; EvRecv 21 0; EvSettle; EvRecv 6 0; EvSettle;
+   EvRecv 51 4; EvSettle; EvRelease 1; EvRecv 60 1; EvSettle].
+
+Lemma between_methods_success fixk :
+  let s := run_g true fixk (init_gated false true) between_methods in
+  closed (cn s) = false /\ auth (cn s) = 2 /\ waiting (cn s) = true /\ req_issued (cn s) = false /\
+  closed (cn (run_g true fixk s [EvRecv 52 0; EvSettle])) = true.
+Proof. destruct fixk; vm_compute; repeat split; reflexivity. Qed.
